@@ -20,27 +20,27 @@ NOTES = ("Every check is `generate (seeded) -> drive the real crate -> monitor t
 CHECKS = {
     "C01": dict(
         technique="runtime monitoring: self-consistency oracle over recorded seal/open event logs of the real sender and receiver",
-        text="Exploration: seeded workloads over all 144 suite/mode cells with boundary-length inputs, lagging receivers and all API pairings; the oracle checks each in-order delivery against the plaintext that was sealed and the length relations. Sampling is the right level: the space is unbounded and the failure modes (one cell, one length class) are reached by structured coverage.",
+        text="Exploration: seeded workloads over all 144 suite/mode cells with boundary-length inputs, empty plaintexts and empty PSK bundles, lagging receivers, all API pairings incl. both single-shot forms, self-addressed Auth sessions; run on the overflow-checked and on the release build; thorough adds 66 000-message sessions and one message of 2^32+5 bytes per AEAD. The oracle checks each in-order delivery against the plaintext that was sealed and the length relations.",
         design_ref="DESIGN.md 6/C01", note=TRUST),
     "C02": dict(
         technique="runtime monitoring: differential oracle - every recorded result of the real code compared byte-for-byte with an independent executable RFC 9180 (both directions)",
-        text="Exploration with an independent reference: all 48 suites x 4 modes, impl-as-sender under scripted RNG bytes and reference-as-sender transcripts; any symmetric change to labels, ids, orders, mode bytes or nonce layout shows up as a byte difference. The reference is anchored on published vectors at the start of each run.",
+        text="Exploration with an independent reference: all 48 suites x 4 modes, impl-as-sender under scripted RNG bytes and reference-as-sender transcripts, both single-shot forms, argument-aliasing sessions (info = psk_id, randomness that derives a key already in play, enc = pkR, ...), length sweeps 0..2200 of exporter context / info / psk / psk_id / aad, 300-message (thorough 70 000) sessions; on the overflow-checked and the release build. Any symmetric change to labels, ids, orders, mode bytes or nonce layout shows up as a byte difference. The reference is anchored on published vectors at the start of each run.",
         design_ref="DESIGN.md 3, 6/C02", note=TRUST),
     "C03": dict(
         technique="runtime monitoring: differential oracle for the KEM layer (DeriveKeyPair/GenerateKeyPair/Encap/Decap/Auth variants) against the reference, with directed rare-event inputs",
-        text="Exploration: 4 KEMs, ikm lengths 0..65536, degenerate ikm, plain and authenticated encap/decap, decap of reference encapsulations; three precomputed ikm values drive the P-256 rejection-sampling retry path, which random inputs hit with probability 2^-32.",
+        text="Exploration: 4 KEMs, ikm lengths 0..65536, degenerate ikm, plain and authenticated encap/decap (incl. mismatched identity pairs, enc = pkR), decap of reference encapsulations; directed rare events: three precomputed ikm values drive the P-256 rejection-sampling retry path (2^-32), peers constructed so that the DH value has x = 0 / leading zero bytes (NIST) or one of 26 zero-byte patterns (X25519), private keys sharing long prefixes used back to back; on checked, release and std builds.",
         design_ref="DESIGN.md 6/C03", note=TRUST + " The P-384/P-521 retry path is unreachable (p < 2^-190)."),
     "C04": dict(
         technique="runtime monitoring: abstract state machine (counter + latch) stepped in lock-step with the real sender context; every ciphertext recomputed with OpenSSL under the model's nonce; sort-based nonce-reuse detector over bursts",
-        text="Exploration of the 2^64 counter space by structure: a full prefix (2^20 quick / 2^24 thorough seals per AEAD) for uniqueness, every byte-carry boundary, the last values before and after exhaustion, seeded random positions, arbitrary call histories on dead contexts. Contexts are built from raw key material through a cfg(hpke_verif) hook so the monitor does not depend on the key schedule.",
+        text="Exploration of the 2^64 counter space by structure: a full prefix (2^20 quick / 2^24 thorough seals per AEAD) for uniqueness, every byte-carry boundary, the last values before and after exhaustion, seeded random positions, arbitrary call histories on dead contexts; thorough: 64.5 GiB through one context per AEAD and the raw-key workload interpreted by Miri for a 32-bit (i686) and a big-endian (s390x) target. Contexts are built from raw key material through a cfg(hpke_verif) hook so the monitor does not depend on the key schedule.",
         design_ref="DESIGN.md 6/C04", note=TRUST + " Positions beyond the burst prefix are reached with the set_seq hook."),
     "C05": dict(
         technique="runtime monitoring: offline checker of recorded delivery histories against an abstract receiver model (position + latch); acceptance decided from recorded bytes only",
-        text="Exploration of adversarial histories (next/replay/future/bit-flips/truncation/extension/garbage/mixed tag, both APIs, positions 0, random, byte carries, 2^64-3.. across exhaustion). Found F1 (open() on an exhausted context answered short inputs with OpenError), fixed in /repo 7e92e6f.",
+        text="Exploration of adversarial histories (next/replay/future/bit-flips/truncation/extension/garbage/mixed tag/alias replays at p + k*2^(8j), both APIs, positions 0, random, byte carries, 2^64-3.. across exhaustion), a run of 66 000+ rejected deliveries on one context, on checked and release builds; thorough: alias replays under Miri for i686 and s390x. Found F1 (open() on an exhausted context answered short inputs with OpenError), fixed in /repo 7e92e6f.",
         design_ref="DESIGN.md 6/C05, 7", note=TRUST),
     "C06": dict(
         technique="runtime monitoring: tamper oracle over recorded opens - any delivered (ct, tag, aad) that differs from what the sender produced must yield OpenError on all four opening interfaces",
-        text="Exploration with exhaustive single-bit flips for small messages (every bit of ct, tag and aad), every truncation length, extensions, cross-message substitutions; streaming and single-shot, allocating and in-place; a control open per message keeps the receiver positioned.",
+        text="Exploration with exhaustive single-bit flips for small messages (every bit of ct, tag and aad), every truncation length, extensions of ct/aad/tag, cross-message substitutions, alternative framings of the genuine bytes (tag first, rotated, reversed, enc/pkR/tag glued on), messages at the last sequence numbers, aad beyond 65535 bytes, a run of 66 000 modified messages against one receiver, directed tags ending in zero bytes; streaming and single-shot, allocating and in-place; a control open per message keeps the receiver positioned.",
         design_ref="DESIGN.md 6/C06", note=TRUST),
     "C07": dict(
         technique="runtime monitoring: differential perturbation oracle - one setup component changed on the receiver, then open and 32/64-byte exports compared with the sender's own",
@@ -79,15 +79,15 @@ CHECKS = {
         text="Exploration: all emptiness combinations at 8 lengths (incl. all-zero non-empty strings); routing for all 48 suites x 4 modes. A mismatch is only a C15 violation when a PSK-routing hypothesis reproduces the real output or it is confined to one mode family.",
         design_ref="DESIGN.md 6/C15", note=TRUST),
     "C16": dict(
-        technique="runtime monitoring: memory-observing monitor (object moved into a slot, bytes photographed around drop_in_place) plus a drop ledger hook at the end of the four wiping Drop impls; optimized builds, memcheck in thorough",
-        text="Exploration over suites/modes/roles: shared secret, base nonce and exporter secret must be sighted in the object's own storage before the drop and wiped after; every setup must drop the temporary AEAD key and the shared secret with no nonzero residue.",
+        technique="runtime monitoring: memory-observing monitors - slot photographs around drop_in_place, liveness probe (in-place inversion of every sighting + behaviour comparison), transformed-copy needles, freed-memory residue seen by the driver's own allocator (also on the shipping build: guard off, release), plus a drop-ledger hook",
+        text="Exploration over suites/modes/roles and directed degenerate-looking secrets: shared secret, base nonce and exporter secret must be sighted in the object's own storage before the drop and wiped after; every live copy (one whose inversion changes the context's behaviour), raw or transformed, must be wiped; a context's heap block may hold nothing live when it is freed - checked on the build a user ships, where nothing inside the crate reads the wiped bytes; every setup must drop the temporary AEAD key and the shared secret with no nonzero residue.",
         design_ref="DESIGN.md 6/C16", note=TRUST + " Only the object's own storage is inspected; stale copies in dead bytes carried by moves are counted, not judged."),
     "C17": dict(
         technique="runtime monitoring over configurations: crate tests, corpus replay of the driver vs the all-features build, API presence probes, examples and bench, guard on/off comparison, per feature subset",
-        text="Enumeration of feature subsets (quick: 11 pair-covering subsets; thorough: all 64, exhaustive: true). Build outcomes are observed by running the compiler and labelled as such; the deciding observations are test runs and output comparisons.",
+        text="Enumeration of feature subsets (quick: 14 subsets covering singles, defaults, all and KEM pairs; thorough: all 64, exhaustive: true): crate tests, corpus replay vs the all-features build (hostile and long inputs, sibling keys, error strings), API presence probes, examples under the required-features declared in the manifest, bench, guard on/off. Build outcomes are observed by running the compiler and labelled as such; the deciding observations are test runs and output comparisons.",
         design_ref="DESIGN.md 6/C17", note=TRUST, category="exploration"),
     "C18": dict(
-        technique="runtime monitoring + race detection: per-session transcripts under permuted, interleaved, threaded, migrating and shared-reference placements compared with the sequential run; ThreadSanitizer (thorough: Miri) on the same executions; compile-time Send+Sync probe",
+        technique="runtime monitoring + race detection: per-session transcripts under permuted, interleaved, threaded, migrating placements on alloc, std and no-alloc builds compared with the sequential run; history probes; shared-reference exports, shared and reused key objects, decapsulation storms; hang analysis; ThreadSanitizer (thorough: Miri); compile-time Send+Sync probe",
         text="Exploration of placements with schedule evidence (threads used, session switches, distinct global orders observed); a run whose parallel placements never overlapped is inconclusive.",
         design_ref="DESIGN.md 6/C18", note=TRUST),
 }
